@@ -407,7 +407,7 @@ func (s *schedSim) race(field int, a, b int, kind string) {
 	fa, fb := siteFunc(a), siteFunc(b)
 	pair := []string{fa, fb}
 	sort.Strings(pair)
-	s.c.Violate("data-race", fmt.Sprintf("C07/data-race/%s/%s~%s", fieldName(field), pair[0], pair[1]),
+	s.c.Violate("data-race", fmt.Sprintf("%s/data-race/%s/%s~%s", s.c.Property, fieldName(field), pair[0], pair[1]),
 		"unordered conflicting accesses (%s) to field %q: %s and %s, no happens-before edge between them", kind, fieldName(field), siteName(a), siteName(b))
 }
 
